@@ -301,6 +301,33 @@ void Exec::op_foreign(Client &c) {
 	if (!lp) { T("  skip"); return; }
 	std::string fmt = op->s("fmt", "LP") == "MPS" ? "MPS" : "LP"; std::string path = io_path(op, fmt == "LP" ? ".lp" : ".mps");
 	std::string text = fmt == "LP" ? render_lp(*lp, op->i("style", 0)) : render_mps(*lp, op->i("style", 0));
+	// a producer with a bug of its own: files whose lines are all well formed but whose structure is not (sections twice, with new
+	// names the later sections then use; references to names nobody declared; records out of place)
+	int mal = (int)op->i("mal", 0); std::string malwhat;
+	if (mal > 0) {
+		auto ins_before = [&](const std::string &key, const std::string &what) { size_t p = text.find(key); if (p == std::string::npos) return false; text.insert(p, what); return true; };
+		std::string c0 = lp->cols.empty() ? "x0" : lp->cols[0].name, r0 = lp->rows.empty() ? "r0" : lp->rows[0].name;
+		if (fmt == "MPS") switch (mal % 10) {
+		case 1: if (ins_before("RHS\n", "ROWS\n L zr1\n G zr2\nCOLUMNS\n " + c0 + " zr1 1 zr2 -2\n")) { ins_before("BOUNDS\n", "RHS\n RHS zr1 5 zr2 -7\nRANGES\n RNG zr1 2 zr2 3\n"); malwhat = "second ROWS/COLUMNS section with new rows, second RHS/RANGES using them"; } break;
+		case 2: if (ins_before("RHS\n", "COLUMNS\n zc1 obj 1 " + r0 + " 2\n zc2 " + r0 + " 3\n")) { ins_before("ENDATA", " UP BND zc1 9\n LO BND zc2 -4\n MI BND zc1\n"); malwhat = "second COLUMNS section with new columns, BOUNDS using them"; } break;
+		case 3: if (ins_before("ENDATA", " UP BND no_such_col 3\n")) malwhat = "bound for an undeclared column"; break;
+		case 4: if (ins_before("BOUNDS\n", " RHS no_such_row 3\n")) malwhat = "rhs for an undeclared row"; break;
+		case 5: if (ins_before("RHS\n", " " + c0 + " " + r0 + " 17\n")) malwhat = "a column continued after other columns"; break;
+		case 6: if (ins_before("COLUMNS\n", "RHS\n RHS " + r0 + " 1\n")) malwhat = "RHS section before COLUMNS"; break;
+		case 7: if (ins_before("RHS\n", " MARKER MARKER 'INTORG'\n zi1 obj 1\n S1 SOS 'MARKER' 'SOSORG'\n zi2 " + r0 + " 1\n")) malwhat = "integer and SOS markers left open"; break;
+		case 8: if (ins_before("ENDATA", " XX BND " + c0 + " 1\n BV BND\n FR\n")) malwhat = "unknown and truncated bound records"; break;
+		case 9: if (ins_before("ROWS\n", "OBJSENSE\nOBJNAME\n no_such_obj\nREFROW\n " + r0 + "\n")) malwhat = "empty OBJSENSE, unknown OBJNAME, REFROW"; break;
+		default: if (ins_before("COLUMNS\n", " N obj\n L " + r0 + "\n")) malwhat = "objective and a row declared twice"; break;
+		}
+		else switch (mal % 6) {
+		case 1: if (ins_before("Bounds\n", "Subject To\n zr1: " + c0 + " + zc1 <= 4\n") || ins_before("BOUNDS\n", "SUBJECT TO\n zr1: " + c0 + " + zc1 <= 4\n")) malwhat = "second constraint section"; break;
+		case 2: if (ins_before("End\n", " -1 <= no_such_col <= 1\n no_such_col2 free\n") || ins_before("END\n", " -1 <= no_such_col <= 1\n")) malwhat = "bounds for undeclared columns"; break;
+		case 3: { size_t p = text.rfind("End"); if (p == std::string::npos) p = text.rfind("END"); if (p != std::string::npos) { text.resize(p); malwhat = "no End"; } break; }
+		case 4: if (ins_before("Bounds\n", " " + r0 + ": " + c0 + " >= 1\n " + r0 + ": 2 " + c0 + " <= 9\n") || ins_before("BOUNDS\n", " " + r0 + ": " + c0 + " >= 1\n")) malwhat = "row name used twice"; break;
+		case 5: if (ins_before("Bounds\n", " zr2: " + c0 + " >= <= 1\n zr3: >= 2\n zr4: 3 " + c0 + " 4 " + c0 + " = = 2\n") || ins_before("BOUNDS\n", " zr2: " + c0 + " >= <= 1\n")) malwhat = "two senses, empty expression"; break;
+		default: if (ins_before("Bounds\n", "Integer\n no_such_col " + c0 + "\nGeneral\n") || ins_before("BOUNDS\n", "INTEGER\n no_such_col\n")) malwhat = "integer section in the wrong place naming an undeclared column"; break;
+		}
+	}
 	world.files[path] = store_bytes(path, text);
 	{ long st = op->i("style", 0); if (st < 0) st = -st; bool s13 = st % 13 == 7 && st % 4 != 1 && lp->cols.size() >= 2; if (fmt == "MPS" && s13) probe("foreign.sos_sets"); }
 	FileInfo f; f.fmt = fmt; f.model = *lp; f.kind = "prob"; f.damaged = true; f.foreign = true; { long st = op->i("style", 0); f.sos = fmt == "MPS" && st % 13 == 7 && st % 4 != 1 && lp->cols.size() >= 2; }   // "damaged": the round-trip law of C08/C09 is about the library's own writer only
@@ -309,6 +336,7 @@ void Exec::op_foreign(Client &c) {
 	if (trace) { int ln = 0; for (auto &l : split(text, '\n')) { if (ln++ > 80) break; out_line("F   " + l.substr(0, 300)); } }
 	// does the text denote exactly the model?  not when the MPS rendering repeats an entry (what a repeated entry means is not defined)
 	files[path].precond = !(fmt == "MPS" && modn(op->i("style", 0), 11) == 5);
+	if (!malwhat.empty()) { files[path].hit = true; res.faults_fired["io.malformed_problem"]++; T("  malformed: " + malwhat); }
 }
 
 // ------------------------------------------------------------------ basis files (C14)
